@@ -62,6 +62,20 @@ theorem preSpec_gen {N : Nat} {db db1 : DB} {o : Option Raw} (hp : PreSpec db db
     rw [hp.invalTime]
     exact sb.idle r (hp.idle r hr) hlt
 
+theorem tick_gen {N : Nat} {db : DB} {h : Bool} (hg : Gen N db h) : Gen N db.tick.1 h := by
+  obtain ⟨pt, sb⟩ := hg
+  refine ⟨⟨?_, ?_, ?_⟩, ⟨sb.next, sb.idle, sb.held⟩⟩
+  · intro r hr
+    have := pt.idle r hr
+    simp only [DB.tick] at hr ⊢
+    exact ⟨by omega, this.2.1, this.2.2⟩
+  · have := pt.inval
+    simp only [DB.tick]; omega
+  · intro e
+    have := pt.held e
+    simp only [DB.tick]
+    exact ⟨by omega, this.2.1, this.2.2⟩
+
 theorem checkout_gen {N : Nat} {db : DB} (hg : Gen N db false) : Gen N (db.checkout) true := by
   apply checkout_cases db (fun d => Gen N d true)
   · intro db1 r hp
@@ -97,16 +111,10 @@ theorem checkout_gen {N : Nat} {db : DB} (hg : Gen N db false) : Gen N (db.check
       rw [f11]; exact hN
   · intro db1 hp
     exact newRaw_gen (preSpec_gen hp hg)
-
-theorem tick_gen {N : Nat} {db : DB} (hg : Gen N db false) : Gen N db.tick.1 false := by
-  obtain ⟨pt, sb⟩ := hg
-  refine ⟨⟨?_, ?_, fun e => by cases e⟩, ⟨sb.next, sb.idle, fun e => by cases e⟩⟩
-  · intro r hr
-    have := pt.idle r hr
-    simp only [DB.tick] at hr ⊢
-    exact ⟨by omega, this.2.1, this.2.2⟩
-  · have := pt.inval
-    simp only [DB.tick]; omega
+  · intro d h
+    exact tick_gen h
+  · intro d h
+    exact newRaw_gen h
 
 theorem addNone_gen {N : Nat} {db : DB} (hg : Gen N db false) :
     Gen N { db with idle := db.idle ++ [none] } false := by
@@ -398,6 +406,11 @@ theorem checkout_mono (db : DB) : Mono db db.checkout := by
   · intro db1 hp
     have := newRaw_mono db1
     exact ⟨Nat.le_trans hp.clock this.1, this.2.1.trans hp.invalTime, by rw [← hp.nextRid]; exact this.2.2⟩
+  · intro d h
+    exact ⟨Nat.le_trans h.1 (Nat.le_succ _), h.2.1, h.2.2⟩
+  · intro d h
+    have := newRaw_mono d
+    exact ⟨Nat.le_trans h.1 this.1, this.2.1.trans h.2.1, Nat.le_trans h.2.2 this.2.2⟩
 
 theorem applyChar_mono (db : DB) (b : Bool) : Mono db (db.applyChar b) := by
   unfold DB.applyChar
